@@ -49,15 +49,14 @@ func (s *Scanner) Scan() (tok Token, lit string) {
 
 	if isEndOfLine(ch) {
 		if isCR(ch) {
-			ch := s.read()
-			if isNL(ch) {
-				return ENDOFLINE, ""
-			} else {
+			// A \r alone is an end of line too: the next
+			// character is given back to the reader
+			if ch := s.read(); !isNL(ch) {
 				aio.PrintMessage("\\r without \\n detected...")
+				s.unread()
 			}
-		} else {
-			return ENDOFLINE, ""
 		}
+		return ENDOFLINE, ""
 	}
 
 	switch ch {
